@@ -43,7 +43,19 @@ def handler_flags():
         "mapUpdate": step_mod(ml, "MapLaneUpdate", "MapLaneUpdate::step"),
         "mapRemove": step_mod(ml, "MapLaneRemove", "MapLaneRemove::step"),
         "mapClear": step_mod(ml, "MapLaneClear", "MapLaneClear::step"),
+        "mapTransform": step_mod(ml, "MapLaneTransformEntry", "MapLaneTransformEntry::step"),
     }
+    # take/drop: keys sorted by their Recon structure, Drop = the first n, Take = all but the first n, removed from
+    # the FRONT of the queue, one `MapLaneRemove` per step (what `dropTakeKeys` / `step (.remMulti ..)` model)
+    ms = src("server/swimos_agent/src/map_storage/mod.rs")
+    one(r"keys_with_recon\.sort_by\(\|\(k1, _\), \(k2, _\)\| k1\.cmp\(k2\)\);", ms, "drop_or_take: sort by key structure")
+    one(r"DropOrTake::Drop => it\.take\(number\)\.cloned\(\)\.collect\(\),\s*DropOrTake::Take => it\.skip\(number\)\.cloned\(\)\.collect\(\),",
+        ms, "to_deque: Drop = take(n), Take = skip(n)")
+    rm = re.findall(r"HandlerAction<C> for MapLaneRemoveMultiple<[^>]*>(.*?)fn describe", ml, re.S)
+    if len(rm) != 1:
+        raise ExtractError(f"MapLaneRemoveMultiple::step: expected one impl, found {len(rm)}")
+    one(r"\} else if let Some\(next\) = key_queue\.pop_front\(\) \{\s*current\.insert\(MapLaneRemove::new\(\*projection, next\)\)",
+        rm[0], "MapLaneRemoveMultiple::step: next key = pop_front")
     b = lambda x: "true" if x else "false"
     body = "".join(f"def {k}Dirty : Bool := {b(d)}\ndef {k}Trigger : Bool := {b(t)}\n" for k, (d, t) in out.items())
     return HEADER + "namespace SwimVerif.Generated\n" + body + "end SwimVerif.Generated\n"
